@@ -4,6 +4,8 @@ import re
 from .common import *
 from .c01 import reader_types, find_fns, content_read_sinks, _only_fails
 from ..world import strip_refs
+from .fsrules import FsWorld
+from ..provenance import leaf, shape
 
 PROP = "C18"
 MATERIALISE = ("Copy", "Reflink", "HardLink")
@@ -15,8 +17,21 @@ def run(ctx, rep):
     return rep
 
 
+def _dest_write(w, e):
+    """An effect that creates or fills a file at an entry point's explicit destination parameter by hand (open for writing,
+    data writes on such a handle)."""
+    if e.kind not in ("Open", "WriteData", "WriteFile") or not e.mutating:
+        return False
+    fw = FsWorld.get(w)
+    for role, cs in fw.expanded(e).items():
+        for x in cs:
+            if shape(x) in ("Entry", "Handle(Entry)") and fw.entry_role(leaf(x)) == "other":
+                return True
+    return False
+
+
 def materialising(w, lf):
-    return [e for e in w.reach_effects(lf) if e.kind in MATERIALISE]
+    return [e for e in w.reach_effects(lf) if e.kind in MATERIALISE or _dest_write(w, e)]
 
 
 def check_config(cfg, w, rep):
@@ -31,9 +46,13 @@ def check_config(cfg, w, rep):
     for lf in prog.fns.values():
         chk = [(b, blk, t) for b, blk, t, g in prog.local_calls(lf)
                if g.outer.name == "check" and strip_refs(g.outer.impl_self or "") in rtypes]
-        if not chk or strip_refs(lf.outer.impl_self or "") in rtypes:
+        if strip_refs(lf.outer.impl_self or "") in rtypes or lf.outer.reachable:
             continue
         body = lf.body
+        if not chk:
+            # the verification may sit in a private helper proved VERIFIED (gate on its result) instead of a direct check()
+            if not (try_gates(prog, body, V.is_verifying_origin) + match_gates(prog, body, V.is_verifying_origin, "Ok")):
+                continue
         mats = []   # blocks where the destination is created / written (own effect or local callee reaching one)
         pl = w.path_like_params(lf)
         dest_i = pl[-1] if len(pl) >= 2 else None
@@ -79,6 +98,20 @@ def check_config(cfg, w, rep):
                               loc=m[2], config=cfg, rule="a-verify-then-materialise", witness=witness_str(body, wit))
     rep.floor("verify_and_materialise_fns", n_vm, 6 if is_async else 3, cfg)
 
+    # ---- (d) a destination written by hand is replaced, not overlaid: opening it for writing truncates (or insists on a
+    #      new file) — otherwise the tail of a longer pre-existing file survives and the destination is not the stored data ----
+    for e in w.inv.effects:
+        if e.kind == "Open" and _dest_write(w, e):
+            lf_ = prog.owner_fn(e.body)
+            fl = {k: v for k, v in e.flags.items() if v}
+            if fl.get("truncate") is True or fl.get("create_new") is True:
+                rep.ob(cfg, "d-dest-replaced", fn_key(lf_), "`%s` opens the destination with %s" % (short(lf_.path), sorted(fl)))
+            else:
+                rep.violation("d-dest:%s" % fn_key(lf_),
+                              "`%s` opens the extraction destination for writing with %s — neither truncate nor create_new: when the destination "
+                              "already exists and is longer than the data, its old tail survives and the file is not the stored bytes" % (
+                                  short(lf_.path), sorted(fl)), loc=e.loc(), config=cfg, rule="d-dest-replaced")
+
     # ---- (b) returned count ----
     n_cnt = 0
     for lf in prog.fns.values():
@@ -94,7 +127,7 @@ def check_config(cfg, w, rep):
                 n_cnt += 1
                 o = rd.origin
                 g = prog.callee_fn(o.term) if o.callee is not None else None
-                if g is not None or (o.callee is not None and norm_callee(o.callee.path) in ("std::fs::copy",)) or \
+                if g is not None or (o.callee is not None and norm_callee(o.callee.path) in ("std::fs::copy", "std::io::copy")) or \
                         (o.callee is not None and o.callee.path == "errors::IoErrorExt::with_context"):
                     rep.ob(cfg, "b-count-delegated", "%s<-%s" % (key, short(g.path) if g else norm_callee(o.callee.path)),
                            "count returned by `%s` is the callee's" % short(lf.path))
@@ -139,12 +172,12 @@ def cleanup_on_failure(w, lf, gates):
     return True
 
 
-def check_count(cfg, w, rep, lf, rd):
-    """`Ok(size as u64)`: size accumulates exactly the amounts returned by the verification reads."""
+def _count_terms(w, g, blk_at, depth=0):
+    """(ok, why, seen_add) for the Ok payload of `g` at return block `blk_at`: 0 + Σ amounts returned by verification reads;
+    a payload that is the Ok payload of a private helper is judged in that helper (one level)."""
     prog = w.prog
-    body = lf.body
-    key = fn_key(lf)
-    payload = prog.resolve_lifted(body, 0, (("v", "Ok"), ("f", "0")), OKFLOW, at=rd.blk)
+    body = g.body
+    payload = prog.resolve_lifted(body, 0, (("v", "Ok"), ("f", "0")), OKFLOW, at=blk_at)
     ok = True
     why = []
     seen_add = False
@@ -162,23 +195,46 @@ def check_count(cfg, w, rep, lf, rd):
             srcs = [prog.resolve_op(body, x, IDENT, o.blk) for x in ops]
             # one operand is the accumulator itself (same leaves as payload), the other a read amount
             amt_ok = False
-            for s in srcs:
-                if s and all(x.kind == "call" and x.callee is not None and
-                             re.search(r"(std::io::Read::read|AsyncReadExt::read)$", x.callee.path) and
-                             x.path[-2:] == (("v", "Ok"), ("f", "0")) for x in s):
+            for s_ in srcs:
+                if s_ and all(x.kind == "call" and x.callee is not None and
+                              re.search(r"(std::io::Read::read|AsyncReadExt::read)$", x.callee.path) and
+                              x.path[-2:] == (("v", "Ok"), ("f", "0")) for x in s_):
                     amt_ok = True
             if not amt_ok:
                 ok = False
                 why.append("added operand is not the amount returned by the verification read")
             continue
+        if o.kind == "call" and depth == 0 and tuple(o.path)[-2:] == (("v", "Ok"), ("f", "0")):
+            h = prog.callee_fn(o.term)
+            if h is not None and not h.outer.reachable:
+                sub_ok, sub_why, sub_add = True, [], False
+                rds = [r for r in ret_defs(prog, h.body) if r.cls == "success"]
+                for r in rds:
+                    a, b_, c = _count_terms(w, h, r.blk, depth + 1)
+                    sub_ok &= a
+                    sub_why += b_
+                    sub_add |= c
+                if rds and sub_ok and sub_add:
+                    seen_add = True
+                    continue
+                ok = False
+                why.append("helper `%s`: %s" % (short(h.path), "; ".join(sub_why) or "no accumulation found"))
+                continue
         ok = False
         why.append(repr(o))
+    return ok, why, seen_add
+
+
+def check_count(cfg, w, rep, lf, rd):
+    """`Ok(size as u64)`: size accumulates exactly the amounts returned by the verification reads."""
+    key = fn_key(lf)
+    ok, why, seen_add = _count_terms(w, lf, rd.blk)
     if ok and seen_add:
         rep.ob(cfg, "b-count-sum", key, "`%s` returns 0 + Σ amounts returned by its verification reads" % short(lf.path))
     else:
         rep.violation("b-count:%s" % key,
                       "`%s` returns a byte count that is not the sum of the amounts its verification reads returned (%s)" % (
-                          short(lf.path), "; ".join(why) or "no accumulation found"), loc=blk_loc(body, rd.blk), config=cfg, rule="b-count")
+                          short(lf.path), "; ".join(why) or "no accumulation found"), loc=blk_loc(lf.body, rd.blk), config=cfg, rule="b-count")
 
 
 def check_keyed_extract(cfg, w, rep, lf, finds):
